@@ -88,6 +88,9 @@ JMappingAcc(fn, in, rr, cls0) ==
           a.pairs[i][1] = EncString(m.pairs[i][1]) /\ a.pairs[i][2] = EncString(m.pairs[i][2]), cls),
      R("C11", "parsed_without_error_reserialises_to_input", has /\ rr.ok /\ a.nerr = 0 /\ rr.serok,
        rr.ser = Take(in, Len(in) - Len(rr.rem)), cls),
+     \* ... also after every query of the mapping (duplicate check, validation, lookups ...) has been called on it
+     R("C11", "parsed_mapping_reserialises_to_input_after_queries", has /\ rr.ok /\ a.nerr = 0 /\ rr.serok /\ "stab" \in DOMAIN rr /\ rr.stab.done /\ rr.stab.reser,
+       rr.stab.ser2 = Take(in, Len(in) - Len(rr.rem)) /\ Len(rr.stab.unstable) = 0, cls),
      R("C11", "wellformed_mapping_no_errors", m.ok /\ m.consumed = Len(in) /\ has, a.nerr = 0, cls),
      R("C11", "malformed_mapping_reports_error", m.framed /\ ~m.ok /\ has /\ m.consumed = Len(in), a.nerr > 0, cls) >>
 
